@@ -5,6 +5,25 @@ BOARD_ASSUME = ["TLC 1.8.0 evaluates the TLA+ definitions faithfully",
                 "coverage is the set of recorded histories of this run (seeded), not all accepted boards"]
 
 
+VALUE_ASSUME = ["TLC 1.8.0 evaluates the TLA+ definitions faithfully",
+                "arguments and results are logged as lists of squares; the recorder does no comparison itself",
+                "the 2^64 argument spaces are sampled (stratified), the finite ones named in the rule are enumerated completely"]
+
+
+def value_job(name, driver, checks, q, t, variant="release", **kw):
+    j = {"type": "trace", "name": name, "driver": driver, "spec": "Trace_Values", "variant": variant, "checks": checks,
+         "args": {"common": {}, "quick": q, "thorough": t}}
+    j.update(kw)
+    return j
+
+
+def parse_job(name, driver, checks, q, t, variant="release", **kw):
+    j = {"type": "trace", "name": name, "driver": driver, "spec": "Trace_Parse", "variant": variant, "checks": checks,
+         "args": {"common": {}, "quick": q, "thorough": t}}
+    j.update(kw)
+    return j
+
+
 def board_job(name, obs, checks, q, t, variant="release", extra_common=None, **kw):
     common = {"obs": ",".join(obs)}
     if extra_common:
@@ -104,5 +123,67 @@ PROPS = {
         "jobs": [
             board_job("san", ["san", "sanread"], ["C20"], {"histories": 120, "subtrees": 30}, {"histories": 6000, "subtrees": 200, "deep": 5}, sample_kinds=["san", "sanread"]),
         ],
+    },
+    "C17": {
+        "rule": "exhaustive: PMIter machine over 6 kinds x 128 destination subsets x all prefixes (Mode A); sampled: random (piece, origin, destination set) batches and batches from real generation, each with the full 28 672-value membership sweep",
+        "assumptions": VALUE_ASSUME,
+        "jobs": [
+            {"type": "model", "name": "pmiter-machine", "spec": "MC_PMIter", "exhaustive": True,
+             "params": {"quick": {"workers": 4, "bounds": "6 piece kinds x all 128 subsets of 7 destination squares (a1 d1 h1 b4 e5 c8 h8), every prefix of the iteration"},
+                        "thorough": {"workers": 4, "bounds": "6 piece kinds x all 128 subsets of 7 destination squares (a1 d1 h1 b4 e5 c8 h8), every prefix of the iteration"}}},
+            value_job("pm", "pm", ["C17"], {"cases": 1500, "boards": 60}, {"cases": 60000, "boards": 3000}, sample_kinds=["pm"]),
+        ],
+    },
+    "C18": {
+        "rule": "exhaustive: carry-rippler machine for all 256 masks of an 8-bit universe (Mode A); sampled: stratified random bitboard pairs (empty, full, singletons, ranks/files, sparse, dense, random, related pairs) through every operator, iteration, subset iteration of masks up to 8 (quick) / 12 (thorough) bits",
+        "assumptions": VALUE_ASSUME,
+        "jobs": [
+            {"type": "model", "name": "carry-rippler-machine", "spec": "MC_Rippler", "exhaustive": True,
+             "params": {"quick": {"workers": 4, "bounds": "all 256 masks of an 8-bit universe, every step"}, "thorough": {"workers": 4, "bounds": "all 256 masks of an 8-bit universe, every step"}}},
+            value_job("bb", "bb", ["C18"], {"cases": 4000, "subset-bits": 8}, {"cases": 150000, "subset-bits": 12}, sample_kinds=["bb_op", "bb_iter", "bb_subsets"]),
+        ],
+    },
+    "C19": {
+        "rule": "all 64 squares x offset pairs (quick: |d| <= 9 plus extremes; thorough: all 65 536) in a build with and one without overflow checks; every enum value's text; all strings of length <= 2 over an 18-symbol alphabet; move texts: legal-shape values, near misses, random strings",
+        "assumptions": VALUE_ASSUME,
+        "jobs": [
+            value_job("coord-release", "coord", ["C19"], {"move-fuzz": 3000}, {"move-fuzz": 300000, "full-offsets": 1, "all-moves": 1}, sample_kinds=["offs", "txt", "sq"]),
+            value_job("coord-overflow-checks", "coord", ["C19"], {"move-fuzz": 1000}, {"move-fuzz": 50000, "full-offsets": 1}, variant="dev", seed_offset=31, sample_kinds=["offs"]),
+        ],
+    },
+    "C05": {
+        "rule": "leaper/pawn/ray tables for all 64 squares, between/line for all 4096 pairs, pawn pushes for all (square, colour) x 4 occupancy classes x random rest; sliders: every subset of the relevant mask x 3 fillings of the irrelevant bits (quick: all bishop squares, 16 rook squares; thorough: all) plus random occupancies; magic, PEXT and overflow-checked builds",
+        "assumptions": VALUE_ASSUME,
+        "jobs": [
+            value_job("geom-magic", "geom", ["C05"], {"rook-squares": 12, "random-occ": 3000}, {"rook-squares": 64, "random-occ": 200000}, sample_kinds=["sl", "leap", "pq"]),
+            value_job("geom-pext", "geom", ["C05"], {"rook-squares": 6, "bishop-squares": 32, "random-occ": 2000}, {"rook-squares": 64, "random-occ": 200000}, variant="pext", seed_offset=17, sample_kinds=["sl"]),
+            value_job("geom-overflow-checks", "geom", ["C05"], {"rook-squares": 2, "bishop-squares": 8, "random-occ": 500}, {"rook-squares": 8, "bishop-squares": 64, "random-occ": 20000}, variant="dev", seed_offset=23, sample_kinds=["sl"]),
+        ],
+    },
+    "C06": {
+        "rule": "soundness: every board returned by build() / from_fen / FromStr on candidate states and texts (accepted boards with 1-2 random mutations, targeted single-defect states per clause, random builder states, corrupted records) and every state logged along histories must satisfy Valid; acceptance: all 960 single and sampled (thorough: all 921 600) double start constructors equal Start(w,k) and positions along random play from them re-enter as text and through the builder",
+        "assumptions": BOARD_ASSUME,
+        "jobs": [
+            parse_job("candidates", "cand", ["C06"], {"bases": 250, "mutations": 8, "random": 400}, {"bases": 12000, "mutations": 12, "random": 30000}, sample_kinds=["build"]),
+            parse_job("starts", "starts", ["C06"], {"pairs": 2500}, {"all-pairs": 1}, sample_kinds=["start"]),
+            parse_job("texts", "parse", ["C06"], {"bases": 40, "random": 300, "edits": 20}, {"bases": 2500, "random": 30000, "edits": 40}, sample_kinds=["parse"]),
+            board_job("reachable", ["text", "rebuild"], ["C06", "C07", "C09"], {"histories": 400, "subtrees": 0, "root-mix": "starts"}, {"histories": 30000, "subtrees": 0, "root-mix": "starts"}, sample_kinds=["reset", "play", "rebuild"]),
+        ],
+        "report": ["C06"],
+    },
+    "C08": {
+        "rule": "texts: canonical records (Shredder and plain) of accepted boards; every single-field replacement from a per-field catalogue of malformed / unsupported / grey values; truncations, extensions, extra spaces; removed / duplicated ranks; random character edits; random strings; each through from_fen(false), from_fen(true) and FromStr",
+        "assumptions": VALUE_ASSUME,
+        "jobs": [
+            parse_job("texts", "parse", ["C08"], {"bases": 60, "random": 600, "edits": 30, "catalogue-pct": 60}, {"bases": 4000, "random": 60000, "edits": 60, "catalogue-pct": 100}, sample_kinds=["parse"]),
+        ],
+    },
+    "C09": {
+        "rule": "builder states: accepted boards' builder images, 1-2 random mutations of them, targeted single-aspect corruptions, random states; each built and its record (checked against RecordOf) parsed by from_fen(true) and FromStr",
+        "assumptions": VALUE_ASSUME,
+        "jobs": [
+            parse_job("candidates", "cand", ["C09"], {"bases": 300, "mutations": 10, "random": 500, "targeted-pct": 40}, {"bases": 15000, "mutations": 14, "random": 40000, "targeted-pct": 60}, sample_kinds=["build"]),
+        ],
+        "report": ["C09"],
     },
 }
